@@ -101,14 +101,41 @@ def uses_all_inputs(ctx, rule, d, r):
             ctx.hold(rule, con, d.module.rel, line_of(s), "depends on %s" % tok_text(want))
 
 
+def no_kept_state(ctx, idx, rule, names=None, why=""):
+    """Before the array analyser runs: no execute body of the named commands (all data commands when None) reads or writes
+    module-level state that some function mutates, nor goes through a cached helper.  A result kept between executions and looked
+    up by a key (result names, a path) belongs to whatever ran first in the process under that key."""
+    n = 0
+    for d in K.table(idx):
+        if d.execute is None or d.execute.cls.name == "Command":
+            continue
+        if names is not None and d.cls.name not in names:
+            continue
+        n += 1
+        fi = d.execute
+        con = "%s.execute::keeps-nothing-between-executions" % d.key
+        su = K.state_uses(idx, fi)
+        memo = K.memoised_helpers(idx, fi)
+        if su and K.state_is_content_checked(idx, fi, su):
+            continue  # (C02.b answers "cannot decide" for a content-validated cache)
+        if su:
+            f_, n_, (m_, nm_) = su[0]
+            ctx.violate(rule, con, d.module.rel, n_.lineno, "%s keeps `%s.%s` between executions (module-level state that functions mutate): what it returns for one set of inputs depends on what ran earlier in the process under the same key%s" % (d.cls.name, m_, nm_, why))
+        elif memo:
+            ctx.violate(rule, con, d.module.rel, memo[0][0].node.lineno, "%s goes through `%s`, cached with `@%s`: what it returns depends on what ran earlier in the process%s" % (d.cls.name, memo[0][0].name, memo[0][1], why))
+        else:
+            ctx.hold(rule, con, d.module.rel, fi.node.lineno, "no module-level state, no cached helper", nontrivial=False)
+    return n
+
+
 def leaves_arguments_alone(ctx, rule, d, r):
     """no execute body changes a list it was passed (pop / del / item store / append on the argument object itself)"""
     con = "%s.execute::leaves-arguments-alone" % d.key
-    muts = [f for f in r.findings if f[0] == "arg-mutation"]
+    muts = [f for f in r.findings if f[0] in ("arg-mutation", "shared-table-mutation")]
     if muts:
         ctx.violate(rule, con, d.module.rel, muts[0][1], muts[0][2])
     else:
-        ctx.hold(rule, con, d.module.rel, d.execute.node.lineno, "list arguments are only read (or copied before they are edited)", nontrivial=False)
+        ctx.hold(rule, con, d.module.rel, d.execute.node.lineno, "list arguments and shared tables are only read (or copied before they are edited)", nontrivial=False)
 
 
 def symmetric_roles(ctx, rule, d, r):
